@@ -557,3 +557,7 @@ def run(ctx, led):
     from . import C09 as _C09
     run_rule(led, "F12", "LINFORM: the arithmetic constraint builders mean what they say (shared with C09-R10)", _C09.r10, ctx)
     run_rule(led, "F13", "BOOLFORM: the Boolean builtins post constraints with the truth table of the FlatZinc builtin (abstract evaluation, all assignments)", fznrules.boolform, ctx)
+    from . import C04 as _C04
+    for _rid, _name in (("F14", "o1"), ("F15", "o4")):
+        if hasattr(_C04, _name):
+            run_rule(led, _rid, "the optimisation procedures `solve minimize/maximize` runs on: C04-%s (shared)" % _name.upper(), getattr(_C04, _name), ctx)
